@@ -5,10 +5,11 @@ binding:   (a) CASE lines printed by TLC (class, behaviour, subset of fields, re
                line layout incl. width, expected sub-field names) replayed into the real classes in
                both directions: records -> dump() -> parse, and text -> parse -> dump() -> parse
                histories (dump, mutate the record lists in place / by assignment / delete a field,
-               dump again ...) are replayed on ONE living object with the expected layout of every dump
+               RE-ORDER the fields, dump again ...) are replayed on ONE living object with the expected
+               layout of every dump
            (b) life cycles recorded from the real classes (random subsets, 1..6 records, arbitrary
-               token lengths, arbitrary white space, in-place mutations between dumps) validated by
-               spec/TraceMultiValued.tla
+               token lengths, arbitrary white space, in-place mutations and re-orderings of the fields
+               before the first dump and between dumps) validated by spec/TraceMultiValued.tla
 Everything that decides a verdict (expected names, layouts, widths, "dump is total") comes from TLC.
 
 API surface (notes/API_SURFACE.md).  Every public way of performing the operations of the statement is
@@ -43,6 +44,16 @@ through a third; the other live objects of a history go through Api as well).  e
                     obj[f].append(rec), obj[f][r]['size'] = s, del obj[f]             H T
                     obj[f] = "raw text"                                               out: not a record list (today dump() raises
                                                                                       TypeError; reported as an observation)
+  re-order          obj.sort_fields() / sort_fields(None) / sort_fields(key=None)        H T (action Reorder of the model: changes
+  (between            sort_fields(fn) / sort_fields(key=fn), fn from SORT_KEYS (str.lower,   neither records nor option nor the case-
+   building /         len, table look-ups by lower-case / given name, tuples, constant)     insensitivity of the key set; before the
+   parsing and      obj.order_first(f) / order_last(f) positional and field= keyword        first dump and between dumps, followed by
+   dumping)         obj.order_before(f, g) / order_after(f, g) positional and keyword,      copy / pickle on a sample; the ORDER of the
+                      f / g = a structured field or another field of the paragraph          fields in the dump is C09's subject: never
+                                                                                      a verdict here)
+  look-ups          every access of a history / trace (f in obj, obj[f], del obj[f],  H T (the model is abstract in the spelling:
+                      obj[f].append, order_*(f)) spells the field name as documented,      look-ups fold case; the class itself asks
+                      in lower case or in upper case, whatever spelling it was stored in   with lower-case keys: Visible / KeysFold)
   option            obj.size_field_behavior = v / obj.set_size_field_behavior(v)      R H T (legal and rejected values)
   same object via   copy.copy / copy.deepcopy / pickle round trip (since 794ff51)     R H T (before a dump, between history steps)
                     obj.copy() / cls(obj) (since e5df170; shallow like dict.copy(),    R H T (the option is assigned again: whether a
@@ -52,6 +63,19 @@ through a third; the other live objects of a history go through Api as well).  e
                     dump(fd) / dump(fd, "utf-8") / dump(fd=, encoding=, text_mode=)   R H T (binary file)
                     get_as_string(f) for every structured field                       R H T
                     dump(text fd) without text_mode                                   out: documented to need text_mode=True
+  file objects      parse: cls(fo) / cls.iter_paragraphs(fo) with fo = BytesIO, StringIO,   R H T (FILE_KINDS_IN / FILE_KINDS_OUT, rotating;
+  (SIZE_STRESS        real file rb / rb unbuffered / text, BufferedReader and TextIOWrapper    every kind in every run: evidence
+   part 4)            over a raw stream with SHORT reads (1..7 bytes), GzipFile (by name,      file_object_kinds)
+                      by fileobj, text mode), BZ2File, LZMAFile, SpooledTemporaryFile
+                      (binary / text), generator of byte lines
+                    dump(fd): BytesIO, StringIO, real file wb / wb unbuffered / wt,
+                      BufferedWriter / TextIOWrapper over a raw sink with SHORT writes,
+                      GzipFile, gzip text, BZ2File, LZMAFile, SpooledTemporaryFile
+  alignment         a line end exactly at / one before / one after byte offset 2**k        R T (aligned cases: the same abstract case,
+  (part 4)            (k = 9..17) inside a structured value, between two fields, at the     offsets steered by a padded context field
+                      very end (= before the paragraph separator of iter_paragraphs)        or a lengthened first token; parse and dump
+                                                                                      forced through file objects; evidence
+                                                                                      aligned_cases, traces_aligned)
   not operations of the statement: isSingleLine / isMultiLine / mergeFields (deprecated aliases of
   helpers that do not touch structured fields), get_gpg_info, the relation / version mixins.
 """
@@ -65,7 +89,7 @@ import core
 
 MANIFEST = dict(
     technique="TLA+ spec (MultiValued: class tables, Build/Dump/Parse/Load, width rule) model-checked by TLC over every subset of every class's structured fields; CASE lines replayed into Dsc/Changes/BuildInfo/PdiffIndex/Release in both directions; recorded life cycles validated by TLC (TraceMultiValued)",
-    text="TLC explores, to a fixed point, every class x Release.size_field_behavior x EVERY subset of the class's structured fields (PdiffIndex: 2^14) x record lists of <= 2 records (sizes of 1..18 characters, single-line form included) and checks DumpTotal, RecordsRoundTrip, SubFieldNames and the width rule (16, or the longest size of the field); the life cycle is a history: after a dump a record may be appended or a size replaced in place, a list re-assigned, a field deleted, and every later dump is checked against the current records; records are positions (identical records stay independent, also in parsed paragraphs), size_field_behavior is state of one object (other live objects are interleaved, a fresh Release is at the default); spec-level negative controls (IterateAllFields = the pre-78e977a KeyError, CacheWidths, SharedEqualRecords, ClassLevelOption, SplitEverySpace) must make TLC report a violation. Each explored paragraph is printed as a CASE line with the expected layout and replayed with concretized tokens: build from records -> dump() -> parse, and parse the expected text -> dump() -> parse; recorded life cycles with up to 6 records, arbitrary token lengths and white space are validated by TLC against the same actions.",
+    text="TLC explores, to a fixed point, every class x Release.size_field_behavior x EVERY subset of the class's structured fields (PdiffIndex: 2^14) x record lists of <= 2 records (sizes of 1..18 characters, single-line form included) and checks DumpTotal, RecordsRoundTrip, SubFieldNames and the width rule (16, or the longest size of the field); the life cycle is a history: after a dump a record may be appended or a size replaced in place, a list re-assigned, a field deleted, and every later dump is checked against the current records; records are positions (identical records stay independent, also in parsed paragraphs), size_field_behavior is state of one object (other live objects are interleaved, a fresh Release is at the default); the public re-ordering operations of the paragraph (sort_fields with the default key or a key function, order_first/last/before/after) are an action of the model that may occur before the first dump and between dumps and changes neither records nor option nor the case-insensitivity of the key set (the class's own lower-case look-ups, obj[f], del obj[f], f in obj in any spelling keep finding every present field: KeysFold); spec-level negative controls (IterateAllFields = the pre-78e977a KeyError, CacheWidths, SharedEqualRecords, ClassLevelOption, StoreBeforeValidate, ReorderStoresPlainKeys, SplitEverySpace) must make TLC report a violation. Each explored paragraph is printed as a CASE line with the expected layout and replayed with concretized tokens: build from records -> dump() -> parse, and parse the expected text -> dump() -> parse; recorded life cycles with up to 6 records, arbitrary token lengths and white space are validated by TLC against the same actions.",
     note="Sub-field tables are transcribed from the module docstring (BuildInfo is not listed there: taken from deb-buildinfo(5)/the class). Unspecified: Release/dak with a single-line field (TypeError today), width of a Release/apt-ftparchive field holding a size longer than 16. Separator blanks other than the size padding are diagnostic. Quick tier replays a seed-dependent 1/24 sample of the PdiffIndex subsets (all are model-checked), thorough replays every subset. Trusted: TLC, the layout projection (regex over dump()), the concretizer.",
     design="5 (C12)")
 
@@ -105,12 +129,202 @@ def do_dump(obj):
 
 API_COUNTS = {}      # entry point / variant -> number of uses in this run (evidence: api_variants)
 
-PARSE_VARIANTS = ["str", "lines", "StringIO", "bytes", "BytesIO", "lines_nl", "bytes_lines", "generator",
-                  "kw_sequence", "fields_pos", "fields_kw", "strict_pos", "strict_kw", "encoding_kw",
-                  "mapping_deb822", "mapping_dict",
-                  "iter_str", "iter_bytes", "iter_file", "iter_textfile", "iter_lines", "iter_kw", "subclass", "subclass_iter"]
+PARSE_ONE = ["str", "lines", "StringIO", "bytes", "BytesIO", "lines_nl", "bytes_lines", "generator",
+             "kw_sequence", "fields_pos", "fields_kw", "strict_pos", "strict_kw", "encoding_kw",
+             "mapping_deb822", "mapping_dict", "fileobj"]
+PARSE_ITER = ["iter_str", "iter_bytes", "iter_file", "iter_textfile", "iter_lines", "iter_kw", "iter_fileobj", "subclass", "subclass_iter"]
+PARSE_VARIANTS = PARSE_ONE + PARSE_ITER
+PARSE_FILES = ["StringIO", "BytesIO", "fileobj", "fileobj", "fileobj", "iter_file", "iter_textfile", "iter_fileobj", "iter_fileobj"]
 BUILD_VARIANTS = ["setitem", "setitem_deb822dict", "update_dict", "update_kw", "update_pairs", "setdefault"]
-DUMP_VARIANTS = ["dump", "str", "bytes", "unicode", "fd_text", "fd_text_kw", "fd_bin", "fd_bin_enc", "fd_kw", "get_as_string"]
+DUMP_VARIANTS = ["dump", "str", "bytes", "unicode", "fd_text", "fd_text_kw", "fd_bin", "fd_bin_enc", "fd_kw", "get_as_string", "fd_fileobj"]
+DUMP_FILES = ["fd_text", "fd_bin", "fd_kw", "fd_fileobj", "fd_fileobj", "fd_fileobj"]
+REORDER_KINDS = ["sort", "sortkey", "first", "last", "before", "after"]
+# kinds of file objects (notes/SIZE_STRESS.md part 4); "b" = yields / takes bytes, "t" = text
+FILE_KINDS_IN = ["BytesIO", "StringIO", "file_rb", "file_rb_unbuffered", "file_rt", "shortreads", "shortreads_text",
+                 "gzip", "gzip_text", "gzip_fileobj", "bz2", "lzma", "spooled_b", "spooled_t", "line_generator"]
+FILE_KINDS_OUT = ["BytesIO", "StringIO", "file_wb", "file_wb_unbuffered", "file_wt", "shortwrites", "shortwrites_text",
+                  "gzip", "gzip_text", "bz2", "lzma", "spooled_b", "spooled_t"]
+WORK = [None]        # scratch directory for real files (ctx.work; set by run() / replay())
+_ORDER = {"origin": 1, "source": 2, "format": 3, "files": 4, "md5sum": 5, "sha256": 6, "sha1-history": 7, "SHA1-Patches": 8, "MD5Sum": 9}
+# key functions for sort_fields(key): total on any field name, results mutually comparable
+SORT_KEYS = [("str.lower", str.lower), ("lambda lower()", lambda n: n.lower()), ("len", len), ("reversed", lambda n: n.lower()[::-1]),
+             ("table.get(lower)", lambda n: _ORDER.get(n.lower(), 99)), ("table.get(name)", lambda n: _ORDER.get(n, 99)),
+             ("table.get(str(name))", lambda n: _ORDER.get(str(n), 99)), ("tuple", lambda n: (len(n) % 3, n.upper())),
+             ("constant", lambda n: 0), ("casefold", lambda n: str(n).casefold())]
+
+
+def workdir():
+    import tempfile
+    if not WORK[0] or not os.path.isdir(WORK[0]):
+        WORK[0] = tempfile.mkdtemp(prefix="c12-files-")
+    return WORK[0]
+
+
+def _scratch(suffix=""):
+    import tempfile
+    fd, path = tempfile.mkstemp(prefix="c12-", suffix=suffix, dir=workdir())
+    os.close(fd)
+    return path
+
+
+def _short_raw(data, seed):
+    """a raw stream that returns SHORT reads (1..7 bytes per call)"""
+    import io
+    import random
+
+    class ShortRaw(io.RawIOBase):
+        def __init__(self):
+            self.pos, self.rng = 0, random.Random(seed)
+
+        def readable(self):
+            return True
+
+        def readinto(self, b):
+            n = min(len(b), self.rng.randint(1, 7), len(data) - self.pos)
+            b[:n] = data[self.pos:self.pos + n]
+            self.pos += n
+            return n
+    return ShortRaw()
+
+
+def _short_sink(seed):
+    """a raw stream that accepts SHORT writes (1..7 bytes per call); .data = what arrived"""
+    import io
+    import random
+
+    class ShortSink(io.RawIOBase):
+        def __init__(self):
+            self.data, self.rng = bytearray(), random.Random(seed)
+
+        def writable(self):
+            return True
+
+        def write(self, b):
+            n = min(len(b), self.rng.randint(1, 7))
+            self.data += bytes(b[:n])
+            return n
+    return ShortSink()
+
+
+def open_input(kind, text, seed=0):
+    """(file object yielding the lines of `text`, closer).  The content is the same for every kind."""
+    import bz2
+    import gzip
+    import io
+    import lzma
+    import tempfile
+    data = text.encode("utf-8")
+    paths, objs = [], []
+
+    def closer():
+        for o in objs:
+            try:
+                o.close()
+            except Exception:
+                pass
+        for q in paths:
+            try:
+                os.unlink(q)
+            except OSError:
+                pass
+    if kind == "BytesIO":
+        return io.BytesIO(data), closer
+    if kind == "StringIO":
+        return io.StringIO(text), closer
+    if kind in ("file_rb", "file_rb_unbuffered", "file_rt"):
+        path = _scratch()
+        paths.append(path)
+        with open(path, "wb") as f:
+            f.write(data)
+        fo = open(path, "rb") if kind == "file_rb" else (open(path, "rb", buffering=0) if kind == "file_rb_unbuffered"
+                                                       else open(path, "r", encoding="utf-8", newline="\n"))
+        objs.append(fo)
+        return fo, closer
+    if kind in ("shortreads", "shortreads_text"):
+        fo = io.BufferedReader(_short_raw(data, seed))
+        if kind == "shortreads_text":
+            fo = io.TextIOWrapper(fo, encoding="utf-8", newline="\n")
+        objs.append(fo)
+        return fo, closer
+    if kind in ("gzip", "gzip_text", "gzip_fileobj", "bz2", "lzma"):
+        comp = {"gzip": gzip.compress, "gzip_text": gzip.compress, "gzip_fileobj": gzip.compress, "bz2": bz2.compress, "lzma": lzma.compress}[kind](data)
+        if kind == "gzip_fileobj":
+            fo = gzip.GzipFile(fileobj=io.BytesIO(comp))
+        else:
+            path = _scratch("." + kind[:4])
+            paths.append(path)
+            with open(path, "wb") as f:
+                f.write(comp)
+            fo = (gzip.GzipFile(path) if kind == "gzip" else gzip.open(path, "rt", encoding="utf-8", newline="\n") if kind == "gzip_text"
+                  else bz2.BZ2File(path) if kind == "bz2" else lzma.LZMAFile(path))
+        objs.append(fo)
+        return fo, closer
+    if kind in ("spooled_b", "spooled_t"):
+        if kind == "spooled_b":
+            fo = tempfile.SpooledTemporaryFile(max_size=4096, mode="w+b", dir=workdir())
+            fo.write(data)
+        else:
+            fo = tempfile.SpooledTemporaryFile(max_size=4096, mode="w+", encoding="utf-8", newline="\n", dir=workdir())
+            fo.write(text)
+        fo.seek(0)
+        objs.append(fo)
+        return fo, closer
+    if kind == "line_generator":
+        return (ln for ln in data.splitlines(True)), closer
+    raise core.MachineryError("unknown input file kind %r" % kind)
+
+
+def open_output(kind, seed=0):
+    """(file object, text mode?, finish) -- finish() closes it and returns the text that was written"""
+    import bz2
+    import gzip
+    import io
+    import lzma
+    import tempfile
+    if kind == "BytesIO":
+        fo = io.BytesIO()
+        return fo, False, lambda: fo.getvalue().decode("utf-8")
+    if kind == "StringIO":
+        fo = io.StringIO()
+        return fo, True, fo.getvalue
+    if kind in ("shortwrites", "shortwrites_text"):
+        sink = _short_sink(seed)
+        fo = io.BufferedWriter(sink, buffer_size=64)
+        if kind == "shortwrites_text":
+            fo = io.TextIOWrapper(fo, encoding="utf-8", newline="\n")
+
+        def fin():
+            fo.flush()
+            return bytes(sink.data).decode("utf-8")
+        return fo, kind == "shortwrites_text", fin
+    if kind in ("spooled_b", "spooled_t"):
+        fo = (tempfile.SpooledTemporaryFile(max_size=4096, mode="w+b", dir=workdir()) if kind == "spooled_b"
+              else tempfile.SpooledTemporaryFile(max_size=4096, mode="w+", encoding="utf-8", newline="\n", dir=workdir()))
+
+        def fin():
+            fo.seek(0)
+            t = fo.read()
+            fo.close()
+            return t if isinstance(t, str) else t.decode("utf-8")
+        return fo, kind == "spooled_t", fin
+    path = _scratch()
+    opener = {"file_wb": lambda: open(path, "wb"), "file_wb_unbuffered": lambda: open(path, "wb", buffering=0),
+              "file_wt": lambda: open(path, "w", encoding="utf-8", newline="\n"),
+              "gzip": lambda: gzip.GzipFile(path, "wb"), "gzip_text": lambda: gzip.open(path, "wt", encoding="utf-8", newline="\n"),
+              "bz2": lambda: bz2.BZ2File(path, "wb"), "lzma": lambda: lzma.LZMAFile(path, "wb")}.get(kind)
+    if opener is None:
+        raise core.MachineryError("unknown output file kind %r" % kind)
+    fo = opener()
+    reader = {"gzip": gzip.open, "gzip_text": gzip.open, "bz2": bz2.open, "lzma": lzma.open}.get(kind, open)
+
+    def fin():
+        fo.close()
+        try:
+            with reader(path, "rb") as f:
+                return f.read().decode("utf-8")
+        finally:
+            os.unlink(path)
+    return fo, kind in ("file_wt", "gzip_text"), fin
 XFORM_VARIANTS = ["none", "none", "none", "copy.copy", "deepcopy", "pickle", "copy()", "cls(obj)"]
 _HEAD = re.compile(r"(?m)^([^:\s]+):")
 
@@ -121,10 +335,16 @@ class Api:
     (cls(str), obj[f] = records, obj.dump()); any other seed = a rotating random choice.  All
     variants are judged by the same verdicts (the expectation comes from the same abstract case)."""
 
-    def __init__(self, seed):
+    def __init__(self, seed, files=False):
         import random
         self.primary = not seed
         self.rng = random.Random(seed)
+        self.files = files          # aligned cases: every parse / dump goes through a file object
+
+    def spell(self, name):
+        """a field name in one of its spellings (documented / lower / upper case): look-ups are
+        case-insensitive, the model is abstract in the spelling"""
+        return name if self.primary else SPELL[self.rng.randrange(3)](name)
 
     def pick(self, kind, options):
         v = options[0] if self.primary else self.rng.choice(options)
@@ -136,12 +356,15 @@ class Api:
         """(obj, None) or (None, message)"""
         import io
         import warnings
-        opts = PARSE_VARIANTS if (allow_iter and text.strip()) else PARSE_VARIANTS[:16]
+        opts = PARSE_VARIANTS if (allow_iter and text.strip()) else PARSE_ONE
+        if self.files:
+            opts = [o for o in PARSE_FILES if o in opts]
         if cname != "Dsc":
             opts = [o for o in opts if not o.startswith("subclass")]
         v = self.pick("parse", opts)
         cls = get_class("Sources" if v.startswith("subclass") else cname)
         two = text + "\nOther-Paragraph: 1\n"
+        closer = None
         try:
             with warnings.catch_warnings():
                 warnings.simplefilter("ignore")
@@ -177,6 +400,9 @@ class Api:
                     o = cls(get_class("Deb822")(text))
                 elif v == "mapping_dict":
                     o = cls(dict(get_class("Deb822")(text).items()))
+                elif v == "fileobj":
+                    fo, closer = open_input(self.pick("fkind_in", FILE_KINDS_IN), text, self.rng.randrange(1 << 30))
+                    o = cls(fo)
                 else:
                     if v in ("iter_str", "subclass_iter"):
                         it = cls.iter_paragraphs(two, use_apt_pkg=False) if v == "subclass_iter" else cls.iter_paragraphs(two)
@@ -188,6 +414,9 @@ class Api:
                         it = cls.iter_paragraphs(io.StringIO(two))
                     elif v == "iter_lines":
                         it = cls.iter_paragraphs(two.splitlines())
+                    elif v == "iter_fileobj":
+                        fo, closer = open_input(self.pick("fkind_in", FILE_KINDS_IN), two, self.rng.randrange(1 << 30))
+                        it = cls.iter_paragraphs(fo)
                     else:
                         it = cls.iter_paragraphs(sequence=two, fields=None, use_apt_pkg=False, encoding="utf-8", strict=None)
                     ps = list(it)
@@ -199,8 +428,13 @@ class Api:
             if cname == "Release" and beh not in ("-", "default"):
                 self.setbeh(o, beh)
             return o, None
+        except core.MachineryError:
+            raise
         except Exception as e:
             return None, "%s [%s] raised %s: %s" % (cls.__name__, v, type(e).__name__, e)
+        finally:
+            if closer:
+                closer()
 
     # ---- records -> field of an object
     def build(self, obj, name, recs):
@@ -220,6 +454,45 @@ class Api:
             if name in obj:
                 del obj[name]
             obj.setdefault(name, recs)
+
+    # ---- the ORDER of the fields (public re-ordering operations of the mapping)
+    def context_field(self, obj, lnames):
+        """a field outside the class's tables (added if the paragraph has none)"""
+        ks = [k for k in obj.keys() if k.lower() not in lnames]
+        if not ks:
+            obj["Origin"] = "Debian"
+            ks = ["Origin"]
+        return self.rng.choice(ks) if not self.primary else ks[0]
+
+    def reorder(self, obj, kind, fname, gname):
+        """sort_fields() / sort_fields(key) / order_first / order_last / order_before / order_after through
+        their calling conventions; returns a description"""
+        v = self.pick("reorder", [kind])
+        if kind == "sort":
+            how = self.pick("reorder_call", ["sort_fields()", "sort_fields(None)", "sort_fields(key=None)"])
+            if how == "sort_fields()":
+                obj.sort_fields()
+            elif how == "sort_fields(None)":
+                obj.sort_fields(None)
+            else:
+                obj.sort_fields(key=None)
+            return how
+        if kind == "sortkey":
+            name, fn = SORT_KEYS[0] if self.primary else self.rng.choice(SORT_KEYS)
+            if self.pick("reorder_call", ["sort_fields(key=fn)", "sort_fields(fn)"]) == "sort_fields(fn)":
+                obj.sort_fields(fn)
+            else:
+                obj.sort_fields(key=fn)
+            return "sort_fields(%s)" % name
+        f, g = self.spell(fname), (self.spell(gname) if gname is not None else None)
+        kw = self.pick("reorder_call", ["positional", "keyword"]) == "keyword"
+        if kind in ("first", "last"):
+            m = obj.order_first if kind == "first" else obj.order_last
+            m(field=f) if kw else m(f)
+            return "order_%s(%r)" % (kind, f)
+        m = obj.order_before if kind == "before" else obj.order_after
+        m(field=f, reference_field=g) if kw else m(f, g)
+        return "order_%s(%r, %r)" % (v, f, g)
 
     def setbeh(self, obj, v):
         if self.pick("setbeh", ["property", "set_size_field_behavior"]) == "property":
@@ -252,9 +525,20 @@ class Api:
     def dump(self, obj, lnames):
         """(text, "ok") or (None, "EXC:...")"""
         import io
-        v = self.pick("dump", DUMP_VARIANTS)
+        v = self.pick("dump", DUMP_FILES if self.files else DUMP_VARIANTS)
         try:
-            if v == "dump":
+            if v == "fd_fileobj":
+                fd, textmode, fin = open_output(self.pick("fkind_out", FILE_KINDS_OUT), self.rng.randrange(1 << 30))
+                try:
+                    if textmode:
+                        r = obj.dump(fd, text_mode=True)
+                    else:
+                        r = obj.dump(fd)
+                finally:
+                    t = fin()
+                if r is not None:
+                    t = None
+            elif v == "dump":
                 t = obj.dump()
             elif v == "str":
                 t = str(obj)
@@ -275,6 +559,8 @@ class Api:
             if not isinstance(t, str):
                 return None, "EXC:%s returned %s" % (v, type(t).__name__)
             return t, "ok"
+        except core.MachineryError:
+            raise
         except Exception as e:
             return None, "EXC:%s [%s]: %s" % (type(e).__name__, v, e)
 
@@ -311,14 +597,16 @@ def observe_layout(text, names):
     return {k: ("single" if v["head"] and not v["cont"] else "multi", v["lines"]) for k, v in out.items()}
 
 
-def observe_records(obj, table):
-    """projection of the object: field index -> (form, [[(sub-field name, token), ...], ...])"""
+def observe_records(obj, table, spell=None):
+    """projection of the object: field index -> (form, [[(sub-field name, token), ...], ...]);
+    spell: the spelling in which the fields are asked for (look-ups are case-insensitive)"""
     out = {}
     for idx, fld in enumerate(table, 1):
         try:
-            if fld["f"] not in obj:
+            name = spell(fld["f"]) if spell else fld["f"]
+            if name not in obj:
                 continue
-            v = obj[fld["f"]]
+            v = obj[spell(fld["f"]) if spell else fld["f"]]
             if hasattr(v, "keys"):
                 out[idx] = ("single", [[(str(k), str(v[k])) for k in v.keys()]])
             elif isinstance(v, list):
@@ -461,6 +749,8 @@ EXTRA = [("Origin", "Debian"), ("Source", "hello"), ("Format", "3.0 (quilt)"), (
 def render(case, conc, variant):
     """the text the specification's Dump produces for the case, with the concretized tokens"""
     out = []
+    if variant.get("xpad"):
+        out.append("X-Pad: %s\n" % ("p" * variant["xpad"]))        # steers the offsets of the following lines (aligned cases)
     if variant.get("extra_first"):
         out.append("%s: %s\n" % EXTRA[variant["extra_first"] % len(EXTRA)])
     for fld in case["F"]:
@@ -474,6 +764,97 @@ def render(case, conc, variant):
     if variant.get("extra_last"):
         out.append("%s: %s\n" % EXTRA[variant["extra_last"] % len(EXTRA)])
     return "".join(out)
+
+
+ALIGN_POWERS = [9, 10, 11, 12, 12, 13, 13, 13, 14, 15, 16, 16, 17, 17]
+
+
+def newline_targets(text):
+    """character offsets of the line ends of `text` by position in the structure: inside a structured
+    value (a record line followed by another record line), between two fields (the next line is a header),
+    at the very end"""
+    out, pos = {"inside a value": [], "between two fields": [], "at the very end": []}, -1
+    lines = text.split("\n")
+    for i, line in enumerate(lines[:-1]):
+        pos += len(line) + 1
+        nxt = lines[i + 1]
+        if i == len(lines) - 2:
+            out["at the very end"].append(pos)
+        elif nxt[:1] in (" ", "\t"):
+            if line[:1] in (" ", "\t"):
+                out["inside a value"].append(pos)
+        else:
+            out["between two fields"].append(pos)
+    return out
+
+
+def align_case(rng, case, conc, variant):
+    """block-boundary alignment (notes/SIZE_STRESS.md part 4): the same abstract case, rendered so that one
+    line end falls exactly at / one before / one after a byte offset 2**k (k = 9..17).  The offset is steered
+    by a padded context field in front (X-Pad) or by lengthening the first token of the first record (the
+    model is abstract in the length of every token but the size).  Returns (conc, variant, info) or None."""
+    import copy
+    variant = dict(variant, xpad=0)
+    conc = copy.deepcopy(conc)
+    how = rng.choice(["context field", "token"])
+    fld0 = next((fld for fld in case["F"] if fld[5] and fld[5][0] != "size"), None)
+    if how == "token" and (fld0 is None or render(case, conc, variant).count(conc[str(fld0[0])][str(fld0[6][0][0][1])]) != 1):
+        how = "context field"           # (a token that occurs twice would shift the offsets twice)
+    if how == "context field":
+        variant["xpad"] = 1
+    base = render(case, conc, variant)
+    targets = newline_targets(base)
+    where = rng.choice([k for k, v in targets.items() if v] or [None])
+    if where is None:
+        return None
+    # the padding must stand before the target line end
+    first_line_end = base.index("\n", base.index(conc[str(fld0[0])][str(fld0[6][0][0][1])])) if how == "token" else base.index("\n")
+    cands = [x for x in targets[where] if x >= first_line_end]
+    if not cands:
+        return None
+    tpos = rng.choice(cands)
+    at = len(base[:tpos].encode("utf-8"))              # byte offset of that "\n"
+    d = rng.choice([-1, 0, 1])
+    k = rng.choice([x for x in ALIGN_POWERS if 2 ** x + d - 1 >= at] or [17])
+    need = 2 ** k - 1 + d - at                        # the "\n" is the byte number 2**k + d (offset 2**k - 1 + d)
+    if need < 0:
+        return None
+    if how == "context field":
+        variant["xpad"] = 1 + need
+    else:
+        f, tid = fld0[0], fld0[6][0][0][1]
+        pool = conc[str(f)]
+        new = pool[str(tid)] + "A" * need
+        if need and new in pool.values():
+            return None
+        pool[str(tid)] = new
+    text = render(case, conc, variant)
+    if text.encode("utf-8")[2 ** k - 1 + d:2 ** k + d] != b"\n":
+        raise core.MachineryError("alignment failed: no line end at offset %d (%s)" % (2 ** k - 1 + d, how))
+    return conc, variant, {"k": k, "d": d, "where": where, "by": how, "bytes": len(text.encode("utf-8"))}
+
+
+def align_text(text, seed):
+    """recorded traces: a padded context field in front (X-Pad) puts one line end of `text` exactly at / next to
+    a byte offset 2**k; returns (text, info)"""
+    import random
+    rng = random.Random(seed)
+    head = "X-Pad: p\n"
+    targets = newline_targets(head + text)
+    where = rng.choice([k for k, v in targets.items() if [x for x in v if x >= len(head)]] or [None])
+    if where is None:
+        return text, None
+    tpos = rng.choice([x for x in targets[where] if x >= len(head)])
+    at = len((head + text)[:tpos].encode("utf-8"))
+    d = rng.choice([-1, 0, 1])
+    k = rng.choice([x for x in ALIGN_POWERS if 2 ** x + d - 1 >= at] or [17])
+    need = 2 ** k - 1 + d - at
+    if need < 0:
+        return text, None
+    out = "X-Pad: p%s\n%s" % ("p" * need, text)
+    if out.encode("utf-8")[2 ** k - 1 + d:2 ** k + d] != b"\n":
+        raise core.MachineryError("alignment failed: no line end at offset %d" % (2 ** k - 1 + d))
+    return out, {"k": k, "d": d, "where": where, "bytes": len(out.encode("utf-8"))}
 
 
 def as_input(text, kind):
@@ -548,7 +929,7 @@ def run_case(ctx, case, conc, variant, tables):
     cname, beh = case["c"], case["b"]
     table = tables[cname]
     lnames = {fld["f"].lower() for fld in table}
-    api = Api(variant.get("api", 0))
+    api = Api(variant.get("api", 0), files=bool(variant.get("files")))
     # ---- direction A: records -> dump -> parse
     if all(fld[2] == "multi" for fld in case["F"]):
         obj, err = new_obj(cname, "default")
@@ -560,6 +941,8 @@ def run_case(ctx, case, conc, variant, tables):
         try:
             if cname == "Release" and not variant.get("beh_late"):
                 api.setbeh(obj, beh)
+            if variant.get("xpad"):
+                obj["X-Pad"] = "p" * variant["xpad"]
             if variant.get("extra_first"):
                 k, v = EXTRA[variant["extra_first"] % len(EXTRA)]
                 obj[k] = v
@@ -692,14 +1075,17 @@ def run_history(ctx, case, conc, variant, tables):
                 try:
                     if cname == "Release" and b0 != "default":
                         api.setbeh(obj, b0)
+                    if variant.get("extra_first"):
+                        k, v = EXTRA[variant["extra_first"] % len(EXTRA)]
+                        obj[k] = v
                     for fld in first["F"]:
-                        f, fname, names, lines = fld[0], fld[1], fld[5], fld[6]
+                        f, fname, names, lines = fld[0], SPELL[variant.get("spell", 0) % 3](fld[1]), fld[5], fld[6]
                         api.build(obj, fname, [dict((names[i], conc[str(f)][str(tid)]) for i, (pad, tid, n) in enumerate(line)) for line in lines])
                 except Exception as e:
                     return "H: building the paragraph raised %s: %s" % (type(e).__name__, e)
         if op == "dump":
             step = {"c": cname, "b": beh, "F": st[1]}
-            m = check_records(step, conc, observe_records(obj, table), what + " records of the living object")
+            m = check_records(step, conc, observe_records(obj, table, api.spell), what + " records of the living object")
             if m:
                 return m
             text, res = api.dump(obj, lnames)
@@ -742,15 +1128,27 @@ def run_history(ctx, case, conc, variant, tables):
                 api.setbeh(obj, beh)
                 done.append("size_field_behavior:=%s" % beh)
                 continue
+            if op == "reorder":
+                kind, f, g = st[1], st[2], st[3]
+                fname = gname = None
+                if kind not in ("sort", "sortkey"):
+                    fname = table[f - 1]["f"] if f else api.context_field(obj, lnames)
+                if kind in ("before", "after"):
+                    gname = table[g - 1]["f"] if g else api.context_field(obj, lnames)
+                how = api.reorder(obj, kind, fname, gname)
+                done.append(how)
+                if variant.get("copy_after_reorder"):
+                    obj = api.transform(obj, beh if cname == "Release" else "-")
+                continue
             f = st[1]
-            fname, subs = table[f - 1]["f"], table[f - 1]["subs"]
+            fname, subs = api.spell(table[f - 1]["f"]), table[f - 1]["subs"]
             if op in ("assign", "delete") and variant.get("poison"):
                 import random
                 poison(obj, fname, subs, random.Random(variant["poison"]))
             if op == "append":
                 obj[fname].append(dict(zip(subs, [tok(f, p) for p in st[2]])))
             elif op == "setsize":
-                obj[fname][st[2] - 1]["size"] = tok(f, st[3])
+                obj[api.spell(fname)][st[2] - 1]["size"] = tok(f, st[3])
             elif op == "assign":
                 api.build(obj, fname, [dict(zip(subs, [tok(f, p) for p in rec])) for rec in st[2]])
             elif op == "delete":
@@ -816,7 +1214,7 @@ def copy_probe(ctx, case, conc, tables, rng):
 def make_variant(rng, c):
     if c == 0:
         return {"illegal": rng.randrange(6), "api": 0}
-    return {"api": rng.randrange(1, 10 ** 9), "illegal": rng.randrange(6), "poison": rng.randrange(1, 1000) if rng.random() < 0.5 else 0, "spell": rng.randrange(3), "input": rng.randrange(5), "reverse": rng.random() < 0.5,
+    return {"api": rng.randrange(1, 10 ** 9), "illegal": rng.randrange(6), "copy_after_reorder": rng.random() < 0.4, "poison": rng.randrange(1, 1000) if rng.random() < 0.5 else 0, "spell": rng.randrange(3), "input": rng.randrange(5), "reverse": rng.random() < 0.5,
             "deb822dict": rng.random() < 0.5, "beh_late": rng.random() < 0.5,
             "extra_first": rng.randrange(5) if rng.random() < 0.5 else 0,
             "extra_last": rng.randrange(5) if rng.random() < 0.3 else 0}
@@ -888,7 +1286,26 @@ def gen_recipe(rng, tables, big=0):
             "spell": rng.randrange(3), "input": rng.randrange(5), "again": rng.random() < 0.3,
             "extra": rng.randrange(5) if rng.random() < 0.4 else 0,
             "api": rng.randrange(1, 10 ** 9) if rng.random() < 0.8 else 0,
+            "align": rng.randrange(1, 10 ** 9) if direction == "given" and fields and rng.random() < 0.07 else 0,
+            "pre": [gen_reorder(rng, [x["f"] for x in fields]) for _ in range(rng.choice([0, 0, 0, 1, 1, 2]))],
             "muts": gen_mutations(rng, table, fields, cname)}
+
+
+def gen_reorder(rng, present):
+    """a re-ordering operation on the fields: sort_fields() / sort_fields(key) / order_first / order_last /
+    order_before / order_after; f, g = a present structured field or 0 (a field outside the tables)"""
+    cand = list(present) + [0]
+    kind = rng.choice(REORDER_KINDS)
+    f = g = 0
+    if kind in ("first", "last", "before", "after"):
+        f = rng.choice(cand) if rng.random() < 0.8 or not present else rng.choice(present)
+    if kind in ("before", "after"):
+        rest = [x for x in cand if x != f]
+        if not rest:
+            kind, f = "sort", 0
+        else:
+            g = rng.choice(rest)
+    return {"op": "reorder", "kind": kind, "f": f, "g": g, "copy": rng.random() < 0.3}
 
 
 def gen_mutations(rng, table, fields, cname):
@@ -901,7 +1318,12 @@ def gen_mutations(rng, table, fields, cname):
         multi = [f for f in cur if cur[f]["form"] == "multi"]
         ops = ["assign"] + (["append", "append", "setsize", "setsize", "setsize"] if multi else []) + (["delete"] if cur else [])
         ops += ["other", "other"] + (["setbeh", "setbeh", "setbehfails", "setbehfails"] if cname == "Release" else [])
+        ops += ["reorder"] * 3
         op = rng.choice(ops)
+        if op == "reorder":
+            muts.append(gen_reorder(rng, sorted(cur)))
+            muts[-1]["single_left"] = any(v["form"] == "single" for v in cur.values())
+            continue
         if op == "setbehfails":
             muts.append({"op": "setbehfails", "i": rng.randrange(len(ILLEGAL_BEHAVIORS))})
             muts[-1]["single_left"] = any(v["form"] == "single" for v in cur.values())
@@ -991,7 +1413,7 @@ def execute(recipe, tables):
     single_present = any(x["form"] == "single" for x in recipe["fields"])
     others = {}
     spell = SPELL[recipe["spell"]]
-    api = Api(recipe.get("api", 0))
+    api = Api(recipe.get("api", 0) or (1 if recipe.get("align") else 0), files=bool(recipe.get("align")))
     if recipe["dir"] == "build":
         obj, err = new_obj(cname, "default")
         if not err and cname == "Release" and beh != "default":
@@ -1038,13 +1460,15 @@ def execute(recipe, tables):
                           "recs": [[pool.tok(t) for t in rec] for rec in x["recs"]],
                           "lines": [[dict(pool.tok(t), pad=p) for t, p in zip(rec, pads)] for rec, pads in zip(x["recs"], x["pads"])]})
         text = "".join(parts)
-        tr["text"] = text
+        if recipe.get("align"):
+            text, tr["aligned"] = align_text(text, recipe["align"])
+        tr["text"] = text if len(text) <= 2000 else text[:300] + "... (%d characters)" % len(text)
         obj, err = api.parse(cname, beh, text)
         if err:
             events.append({"op": "error", "what": err})
             return tr
         events.append({"op": "given", "fields": given})
-        events.append({"op": "parse", "fields": ev_records(observe_records(obj, table), pool)})
+        events.append({"op": "parse", "fields": ev_records(observe_records(obj, table, api.spell), pool)})
         events.append({"op": "load"})
     # the living object `obj` is dumped; every dump is parsed back into a FRESH object; "load"
     # continues with that fresh object, a mutation changes the living one
@@ -1061,7 +1485,7 @@ def execute(recipe, tables):
         if err:
             events.append({"op": "error", "what": err})
             return None
-        events.append({"op": "parse", "fields": ev_records(observe_records(fresh, table), pool)})
+        events.append({"op": "parse", "fields": ev_records(observe_records(fresh, table, api.spell), pool)})
         return fresh
 
     def xform(obj):
@@ -1071,6 +1495,27 @@ def execute(recipe, tables):
             events.append({"op": "error", "what": "copying / pickling raised %s: %s" % (type(e).__name__, e)})
             return None
 
+    def do_reorder(obj, mu):
+        """the ORDER of the fields is changed through the public operations (before the first dump / between dumps)"""
+        try:
+            fname = gname = None
+            if mu["kind"] not in ("sort", "sortkey"):
+                fname = table[mu["f"] - 1]["f"] if mu["f"] else api.context_field(obj, lnames)
+            if mu["kind"] in ("before", "after"):
+                gname = table[mu["g"] - 1]["f"] if mu["g"] else api.context_field(obj, lnames)
+            api.reorder(obj, mu["kind"], fname, gname)
+        except core.MachineryError:
+            raise
+        except Exception as e:
+            events.append({"op": "error", "what": "re-ordering (%s) raised %s: %s" % (mu["kind"], type(e).__name__, e)})
+            return None
+        events.append({"op": "reorder", "kind": mu["kind"], "f": mu["f"], "g": mu["g"]})
+        return xform(obj) if mu.get("copy") else obj
+
+    for mu in recipe.get("pre", []):
+        obj = do_reorder(obj, mu)
+        if obj is None:
+            return tr
     fresh = dump_parse(obj, unspecified)
     if fresh is None:
         return tr
@@ -1106,12 +1551,16 @@ def execute(recipe, tables):
                 events.append({"op": "error", "what": "setting size_field_behavior raised %s: %s" % (type(e).__name__, e)})
                 return tr
             events.append({"op": "setbeh", "v": mu["v"]})
-        if mu["op"] in ("other", "setbeh", "setbehfails"):
+        elif mu["op"] == "reorder":
+            obj = do_reorder(obj, mu)
+            if obj is None:
+                return tr
+        if mu["op"] in ("other", "setbeh", "setbehfails", "reorder"):
             if dump_parse(obj, cname == "Release" and cur_beh == "dak" and mu["single_left"]) is None:
                 return tr
             continue
         f = mu["f"]
-        fname, subs = spell(table[f - 1]["f"]), table[f - 1]["subs"]
+        fname, subs = api.spell(table[f - 1]["f"]), table[f - 1]["subs"]
         if mu["op"] in ("assign", "delete") and mu.get("poison"):
             import random
             poison(obj, fname, subs, random.Random(mu["poison"]))      # out of the domain, replaced by the next step: not logged
@@ -1178,6 +1627,21 @@ def corrupt(t, how):
                         if q != e["r"] - 1 and line[1]["id"] != e["tok"]["id"]:
                             line[1].update(id=e["tok"]["id"], len=e["tok"]["len"])
                             return t
+        if how == "unpadded_after_reorder" and e["op"] == "reorder" and t["cls"] in ("Release", "PdiffIndex") \
+                and i + 1 < len(evs) and evs[i + 1]["op"] == "dump":
+            # pretend the dump after a re-ordering of the fields no longer pads the size column
+            hit = False
+            for fl in evs[i + 1]["fields"]:
+                if fl["form"] == "multi":
+                    for line in fl["lines"]:
+                        if line[1]["pad"] > 1 and line[1]["len"] <= 16:
+                            line[1]["pad"], hit = 1, True
+            if hit:
+                return t
+        if how == "lost_after_reorder" and e["op"] == "reorder" and i + 1 < len(evs) and evs[i + 1]["op"] == "dump" \
+                and evs[i + 1]["fields"]:
+            evs[i + 1]["fields"].pop(0)
+            return t
         if how == "stalewidth" and e["op"] in ("append", "setsize") and t["cls"] in ("Release", "PdiffIndex") \
                 and t["beh"] != "apt-ftparchive" and i + 1 < len(evs) and evs[i + 1]["op"] == "dump":
             # pretend the dump after an in-place mutation still pads to some other width
@@ -1192,7 +1656,8 @@ def corrupt(t, how):
 def validate(ctx, traces, with_controls=True):
     controls = []
     if with_controls:
-        for how in ("swap", "name", "drop", "pad", "keyerror", "lostfield", "lostmutation", "stalewidth", "aliased"):
+        for how in ("swap", "name", "drop", "pad", "keyerror", "lostfield", "lostmutation", "stalewidth", "aliased",
+                    "unpadded_after_reorder", "lost_after_reorder"):
             for t in traces:
                 c = corrupt(t, how)
                 if c:
@@ -1279,11 +1744,14 @@ def compare_tables(ctx, tables):
 def run(ctx):
     quick = ctx.tier == "quick"
     rng = ctx.rng
+    WORK[0] = ctx.work
     ctx.assumptions += [
         "D3: record lists are non-empty, a record has one token per documented sub-field, tokens contain no white space = no code point str.split() splits on (the 29 code points with str.isspace(), incl. NBSP, U+2003, U+3000; U+200B and U+FEFF are allowed); tokens are otherwise arbitrary Unicode (non-NFC text and its precomposed twin as different tokens, non-BMP, zero-width characters), compared by code point",
         "rejected operations: an illegal size_field_behavior whose exception is caught must leave the option unchanged (if it is accepted instead: unspecified); a record with a newline / white-space token is outside the domain -- executed before a re-assignment or deletion of the field, its outcome is ignored and must leave no trace",
         "size dimension (notes/SIZE_STRESS.md): the model is abstract in the number of records and in the length of digests/names; replayed cases are also run with their records replicated to 9..257 (a few: 1000) records, identical and fresh copies, and with tokens of boundary lengths up to 4097; recorded traces contain up to 1000 records, sizes of 1..25 digits (2**31, 2**63, 10**18, leading zeros), names up to 1025 characters, identical records",
-        "model: <= 2 records per field in the closed configurations (sizes 1..18 characters), histories of <= 2 mutations (append / size in place / assign / delete) with a dump after each; up to 6 records, arbitrary lengths, up to 3 mutations in the recorded traces",
+        "model: <= 2 records per field in the closed configurations (sizes 1..18 characters), histories of <= 2 mutations (append / size in place / assign / delete / one re-ordering of the fields, also before the first dump) with a dump after each; up to 6 records, arbitrary lengths, up to 3 mutations and any number of re-orderings in the recorded traces",
+        "re-ordering the fields (sort_fields, order_first/last/before/after) between building / parsing and dumping is inside the domain: the paragraph is still 'a paragraph built from records' / 'a parsed paragraph'; the ORDER of the fields in the dump is never a verdict (C09); key functions are total and their results comparable; field names are asked for in any spelling (look-ups are documented to be case-insensitive)",
+        "file objects (notes/SIZE_STRESS.md part 4): the expected result does not depend on the kind of file object nor on where the block boundaries fall; every kind in FILE_KINDS_IN / FILE_KINDS_OUT is used in every run, aligned cases put a line end at / next to byte offsets 2**9..2**17",
         "unspecified (executed, any outcome accepted): Release/dak with a single-line field; width of a Release/apt-ftparchive field holding a size of more than 16 characters",
         "blanks other than the padding of the size column of Release/PdiffIndex multi-line fields are diagnostic (spec_drift), not verdicts",
         "concretization of tokens is sampled (seeded); trusted: TLC, the regex projection of dump(), the concretizer",
@@ -1294,14 +1762,15 @@ def run(ctx):
     cfg_s, cfg_p = ("MC_MultiValued_quick.cfg", "MC_MultiValued_quick_pdiff.cfg") if quick else \
                    ("MC_MultiValued.cfg", "MC_MultiValued_pdiff.cfg")
     jobs = {
-        "pdiff": bg_tlc(ctx, "MultiValued", cfg_with(cfg_p, EmitOff=emit_off), workers=max(1, WORKERS - 2), want_tags={"CASE"}),
-        "small": bg_tlc(ctx, "MultiValued", cfg_with(cfg_s, EmitOff=emit_off), workers=max(1, WORKERS // 2), want_tags={"CASE"}),
+        "pdiff": bg_tlc(ctx, "MultiValued", cfg_with(cfg_p, EmitOff=emit_off), workers=max(1, WORKERS // 2), want_tags={"CASE"}),
+        "small": bg_tlc(ctx, "MultiValued", cfg_with(cfg_s, EmitOff=emit_off), workers=max(1, WORKERS - 2), want_tags={"CASE"}),
         "neg_iterate": bg_tlc(ctx, "MultiValued", cfg_with("MC_MultiValued_neg_iterate.cfg", Emit="TRUE"), workers=1, want_tags={"TABLES"}),
     }
     negs = {"neg_cache": ("CacheWidths", ("WidthRule", "RightAligned")),
             "neg_shared": ("SharedEqualRecords", ("EditIsLocal",)),
             "neg_classopt": ("ClassLevelOption", ("WidthTable", "WidthRule")),
-            "neg_storefirst": ("StoreBeforeValidate", ("DumpTotal", "OtherIsOther"))}
+            "neg_storefirst": ("StoreBeforeValidate", ("DumpTotal", "OtherIsOther")),
+            "neg_plainkeys": ("ReorderStoresPlainKeys", ("WidthTable", "WidthRule"))}
     # these spec-level controls do not depend on the tree: one of them per quick run (by seed), all in thorough
     todo = sorted(negs) if not quick else [sorted(negs)[ctx.seed % len(negs)]]
     for name in todo:
@@ -1364,10 +1833,14 @@ def run(ctx):
     ctx.extra["cases_replayed"] = stats["n"]
     ctx.extra["api_variants"] = dict(sorted(API_COUNTS.items()))
     expected = (["parse:" + v for v in PARSE_VARIANTS] + ["build:" + v for v in BUILD_VARIANTS] + ["dump:" + v for v in DUMP_VARIANTS]
-                + ["xform:" + v for v in XFORM_VARIANTS] + ["setbeh:property", "setbeh:set_size_field_behavior"])
+                + ["xform:" + v for v in XFORM_VARIANTS] + ["setbeh:property", "setbeh:set_size_field_behavior"]
+                + ["reorder:" + v for v in REORDER_KINDS] + ["fkind_in:" + v for v in FILE_KINDS_IN] + ["fkind_out:" + v for v in FILE_KINDS_OUT])
     missing = [v for v in expected if not API_COUNTS.get(v)]
-    if missing:
+    if missing and not ctx.violations:       # (a run cut short by violations need not have reached every variant)
         raise core.MachineryError("API variants never exercised in this run: %s" % missing)
+    ctx.extra["aligned_cases"] = stats.get("aligned", {})
+    ctx.extra["file_object_kinds"] = {"input": {k[9:]: v for k, v in sorted(API_COUNTS.items()) if k.startswith("fkind_in:")},
+                                      "output": {k[10:]: v for k, v in sorted(API_COUNTS.items()) if k.startswith("fkind_out:")}}
     ctx.extra["cases_size_stressed"] = {"n": stats.get("stressed", 0), "with_1000_records": stats.get("thousand", 0)}
     ctx.extra["model"] = {"cfgs": [cfg_s, cfg_p], "EmitOff": emit_off,
                           "states": r_small.distinct + r_pdiff.distinct, "generated": r_small.generated + r_pdiff.generated,
@@ -1385,6 +1858,8 @@ def run(ctx):
     ctx.extra["traces_rejected"] = len(rejected)
     ctx.extra["traces_per_class_direction"] = per_dir
     ctx.extra["traces_unspecified_dumps"] = sum(1 for t in traces if "unspecified_dump" in t)
+    ctx.extra["traces_aligned"] = sum(1 for t in traces if t.get("aligned"))
+    ctx.extra["traces_with_reorder"] = sum(1 for t in traces if any(e["op"] == "reorder" for e in t["events"]))
     ex = next((t for t in traces if t["cls"] == "PdiffIndex" and len(t["events"]) >= 3), traces[0])
     ctx.sample("recorded trace: " + json.dumps({"cls": ex["cls"], "beh": ex["beh"], "events": ex["events"][:2]},
                                               separators=(",", ":"))[:600])
@@ -1411,6 +1886,7 @@ def replay_cases(ctx, r, tables, nconc, stats):
     cases = sorted(r.printed.get("CASE", []), key=lambda c: json.dumps(c, sort_keys=True))
     quick = ctx.tier == "quick"
     every = 80 if quick else 40
+    every_al = 45 if quick else 40
     thousand = 2 if quick else 6
     for idx, case in enumerate(cases):
         if len(ctx.violations) >= 3:      # leave room for violations found by trace validation
@@ -1450,6 +1926,24 @@ def replay_cases(ctx, r, tables, nconc, stats):
             if msg:
                 ctx.violation({"kind": "case", "case": big, "conc": conc, "variant": variant, "tables": tables},
                               "[%d records per field%s] %s" % (total, ", long tokens" if stress else "", msg))
+        # block-boundary alignment x kinds of file objects (notes/SIZE_STRESS.md part 4): the same abstract case
+        # with a line end at / next to a byte offset 2**k, parsed from and dumped to file objects of every kind
+        if not case.get("H") and case["F"] and not case["u"] and idx % every_al == every_al // 3 and len(ctx.violations) < 3:
+            conc = concretize(rng, case, False)
+            variant = dict(make_variant(rng, 1), files=1, reverse=False)
+            al = align_case(rng, case, conc, variant)
+            if al:
+                conc, variant, info = al
+                msg = run_case(ctx, case, conc, variant, tables)
+                ctx.case_seen(("aligned", info["k"], info["d"], info["where"], case["m"], case["c"], case["b"], json.dumps(case["F"])), True)
+                ctx.traces += 1
+                a = stats.setdefault("aligned", {"n": 0, "by_power": {}, "by_delta": {}, "by_position": {}, "by_padding": {}})
+                a["n"] += 1
+                for kk, vv in (("by_power", "2**%d" % info["k"]), ("by_delta", "%+d" % info["d"]), ("by_position", info["where"]), ("by_padding", info["by"])):
+                    a[kk][vv] = a[kk].get(vv, 0) + 1
+                if msg:
+                    ctx.violation({"kind": "case", "case": case, "conc": conc, "variant": variant, "tables": tables},
+                                  "[line end %s at byte offset 2**%d%+d-1, %d bytes, through file objects] %s" % (info["where"], info["k"], info["d"], info["bytes"], msg))
         if key not in stats["shown"] and len(case["F"]) == 2 and case["m"] == "pairs":
             stats["shown"].add(key)
             ctx.sample("CASE %s: %s" % (key, json.dumps(case["F"], separators=(",", ":"))[:400]))
@@ -1472,6 +1966,7 @@ def describe_event(t, ev):
 
 
 def replay(ctx, case):
+    WORK[0] = ctx.work
     if case["kind"] == "case":
         fn = run_history if case["case"].get("H") else run_case
         return fn(ctx, case["case"], case["conc"], case["variant"], case["tables"])
